@@ -60,4 +60,13 @@ def byvalKey (orders : List (List Cell)) (row : List Cell) : Val :=
 
 def gather {α} [Inhabited α] (idx : List Nat) (xs : List α) : List α := idx.map (xs[·]!)
 
+/-- lexicographic order of equal-length rank vectors (the independent reading of "sorted by several value orders") -/
+def lexNat : List Nat → List Nat → Ordering
+  | a :: as, b :: bs => (compare a b).then (lexNat as bs)
+  | _, _ => .eq
+
+/-- the rank vector of a row under one value order per column -/
+def byvalRanks (orders : List (List Cell)) (row : List Cell) : List Nat :=
+  (orders.zip row).map fun (vals, x) => byvalRank vals x
+
 end Pyg
